@@ -156,15 +156,29 @@ def mapPartialPath (ftp : List (Bytes × List Bytes)) (path : Bytes) : Bytes :=
       | some c => c
       | none => path
 
-/-- lines 347-356 -/
+/-- lines 347-356 before fix fdef150: the lookup runs when it is needed and the path is Java/Kotlin -/
 def partialStep (nd : Bool) (ftp : List (Bytes × List Bytes)) (rel : Bytes) : Bytes :=
   if nd && isPartialExt rel then mapPartialPath ftp rel else rel
+
+/-- `source_dir.is_some_and(|s| s.join(&rel_path).is_file())` (fix fdef150): the path, as it is after
+mapping and prefix removal, already names a regular file below the source dir (links followed) -/
+def namesFile (fs : FS) (src : Option Bytes) (rel : Bytes) : Bool :=
+  match src with
+  | some s => fs.isFile (push s rel)
+  | none => false
+
+/-- lines 347-360 (after fdef150): "a path that names a file below the source directory is not a
+partial one" — the lookup runs when it is needed, the path is Java/Kotlin AND it does not name a file
+below the source dir; otherwise the path is kept as it is -/
+def partialStepF (fs : FS) (src : Option Bytes) (nd : Bool) (ftp : List (Bytes × List Bytes))
+    (rel : Bytes) : Bytes :=
+  partialStep (nd && !namesFile fs src rel) ftp rel
 
 /-- lines 336-363 with the lookup: the path part of the pipeline for one key -/
 def resolveKeyJ (cfg : Cfg) (fs : FS) (nd : Bool) (ftp : List (Bytes × List Bytes)) (key : Bytes) :
     Res (Option (Bytes × Bytes)) :=
   if cfg.mapping.isSome && (bsl key).isEmpty then .panic "to_lowercase_first"
-  else finishPath (getAbsPath fs cfg.sourceDir (partialStep nd ftp (keyPath cfg key)))
+  else finishPath (getAbsPath fs cfg.sourceDir (partialStepF fs cfg.sourceDir nd ftp (keyPath cfg key)))
 
 /-- the `filter_map` closure with the lookup -/
 def rewriteKeyJ (cfg : Cfg) (fs : FS) (nd : Bool) (ftp : List (Bytes × List Bytes))
@@ -194,12 +208,13 @@ def rewritePathsJ (cfg : Cfg) (fs : FS) (ord : List (List Bytes)) (m : List (Byt
 
 /-- what kind of lookup a key went through (for the driver's branch counts) -/
 inductive Branch where
-  | notNeeded | noExt | noEntry | single | firstMatch (nmatch : Nat) | noMatch (ncand : Nat)
+  | notNeeded | noExt | isFile | noEntry | single | firstMatch (nmatch : Nat) | noMatch (ncand : Nat)
 deriving DecidableEq, Repr
 
-def branchOf (nd : Bool) (ftp : List (Bytes × List Bytes)) (rel : Bytes) : Branch :=
+def branchOf (nd : Bool) (ftp : List (Bytes × List Bytes)) (rel : Bytes) (isF : Bool := false) : Branch :=
   if !nd then .notNeeded
   else if !isPartialExt rel then .noExt
+  else if isF then .isFile
   else match (fileName rel).bind (AList.get? ftp) with
     | none => .noEntry
     | some [_] => .single
